@@ -74,6 +74,13 @@ def run(tier, rep):
         rid, r, msg = corp.add(pl, 1, keep_msg=True, lbl=False, ident=ident, kind="complete")
         if msg is not None:
             r["ops"] = [message_rec.do_op(msg, op, fields) for op in ops]
+    # payloads that look like a whole frame / whose integer value is special
+    from .. import stream_corpus
+
+    for pl in stream_corpus.framelike_payloads(rnd) + stream_corpus.special_int_payloads(rnd):
+        rid, r, msg = corp.add(pl, 1, keep_msg=True, lbl=False, ident="special", kind="header")
+        if msg is not None:
+            r["ops"] = [message_rec.do_op(msg, op, fields) for op in ops]
     # implemented MSM numbers with MANY cells (more than the 64 a real receiver would send)
     from .. import msm_corpus
 
